@@ -300,6 +300,13 @@ def _parameter_config(parset_name, paramset):
     suggested_fixed = paramset.suggested_fixed
     if all(x == suggested_fixed[0] for x in suggested_fixed):
         parameter_config["fixed"] = bool(suggested_fixed[0])
+    # constraint settings (may have been configured in the measurement)
+    if paramset.constrained:
+        parameter_config["auxdata"] = list(paramset.auxdata)
+        if paramset.pdf_type == 'normal' and hasattr(paramset, 'sigmas'):
+            parameter_config["sigmas"] = list(paramset.sigmas)
+        if paramset.pdf_type == 'poisson':
+            parameter_config["factors"] = list(paramset.factors)
     return parameter_config
 
 
